@@ -3,7 +3,7 @@
    Gen.Criteria (criteria table, predicate semantics, construction chain, class signatures).
    No proofs in this file.  Tied to the code by the pipeline correspondence (tools/pipeline.py). *)
 From Coq Require Import ZArith List Bool String Ascii.
-From BB Require Import Base.PyBase Gen.Encoders Gen.Criteria Model.Items Model.Encode.
+From BB Require Import Base.PyBase Gen.Encoders Gen.Criteria Gen.PassTable Model.Items Model.Encode.
 Import ListNotations.
 Open Scope Z_scope.
 
@@ -52,6 +52,12 @@ Definition struct_pack (f : string) (v : Z) : option (res (list Z)) :=
       end
   | None => None
   end.
+
+(* ---- the try/except handlers of the pass functions, as REGENERATED from the source (Gen/PassTable.v) ------ *)
+Definition conv_instr_ve : bool := converts "resolve_instructions" "ValueError" "encode_func".
+Definition conv_seq_int : bool := converts "resolve_sequences" "ValueError" "int".
+Definition conv_seq_pack : bool := converts "resolve_sequences" "struct.error" "struct.pack".
+Definition conv_pack : bool := converts "resolve_packs" "struct.error" "struct.pack".
 
 (* ---- sizes (Item.size()) ------------------------------------------------------------------------------ *)
 Definition seq_width (name : string) : option Z :=
@@ -472,7 +478,7 @@ Definition encode_item (l : line) (cls name : string) (fs : list (string * fval)
     else encode name args [] in
   match r with
   | Ok code => Done (le_bytes (if c then 2 else 4) code)
-  | Err ValueError => Fail (PAsm l)
+  | Err ValueError => if conv_instr_ve then Fail (PAsm l) else Fail (PRaw ValueError)
   | Err e => Fail (PRaw e)
   end.
 Fixpoint resolve_instructions (its : list litem) (acc : list litem) : outcome (list litem) :=
@@ -497,7 +503,7 @@ Fixpoint seq_bytes (l : line) (fmtc : string) (vals : list string) : outcome (li
           let f := String.append "<" (if z <? 0 then lower fmtc else fmtc) in
           match struct_pack f z with
           | Some (Ok bs) => rest <<- seq_bytes l fmtc r ;;; Done (app bs rest)
-          | Some (Err _) => Fail (PAsm l)            (* struct.error -> AssemblerError *)
+          | Some (Err e) => if conv_seq_pack then Fail (PAsm l) else Fail (PRaw e)   (* struct.error -> AssemblerError *)
           | None => Unsupported
           end
       end
@@ -510,7 +516,7 @@ Fixpoint resolve_sequences (its : list litem) (acc : list litem) : outcome (list
   match its with
   | [] => Done (rev acc)
   | (l, ISeq name vals) :: r =>
-      if negb (all_ints vals) then Fail (PAsm l)
+      if negb (all_ints vals) then (if conv_seq_int then Fail (PAsm l) else Fail (PRaw ValueError))
       else match seq_fmt name with
            | Some f => bs <<- seq_bytes l f vals ;;; resolve_sequences r ((l, IBlob bs) :: acc)
            | None => Fail (PRaw KeyError)
@@ -536,7 +542,7 @@ Fixpoint resolve_packs (its : list litem) (acc : list litem) : outcome (list lit
   | (l, IPack f (FInt z)) :: r =>
       match struct_pack f z with
       | Some (Ok bs) => resolve_packs r ((l, IBlob bs) :: acc)
-      | Some (Err _) => Fail (PAsm l)                  (* struct.error -> AssemblerError *)
+      | Some (Err e) => if conv_pack then Fail (PAsm l) else Fail (PRaw e)           (* struct.error -> AssemblerError *)
       | None => Unsupported
       end
   | (l, IPack _ _) :: r => Fail (PAsm l)
